@@ -5,6 +5,9 @@ from symx.driver import run_check
 
 def jobs(tier):
     js = pipeline_jobs("c12", tier, relists=(None,), curated_relist=None)
+    # bonds without any attribute (as graph_from_tucan builds them) and with an extra attribute
+    bv = [dict(name="S-shape/bond-attribute-variants", ns=[2, 3, 4], pin={4: 4}, params=dict(K_m=1, K_r=0, bond_variants=True))]
+    js += shape_strata("harness.pipeline", "c12", tier, quick=bv, thorough=bv, max_seconds=3000 if tier == "thorough" else 240)
     # inputs whose numbering differs from their listing order (e.g. the output of nx.relabel_nodes or of canonicalize_molecule)
     strata = [dict(name="S-shape/scrambled-labels", ns=[2, 3, 4], pin={4: 4}, params=dict(K_m=1, K_r=0, scramble=True))]
     strata.append(dict(name="S-shape/labels-not-0..n-1", ns=[1, 2, 3], pin={}, params=dict(K_m=1, K_r=0, offset_labels=True)))
@@ -14,7 +17,7 @@ def jobs(tier):
 
 def main(tier):
     return run_check(
-        "C12", tier, jobs(tier), bounds=dict(std_bounds(tier, relist=False), extra="every atom carries a unique tag, a symbolic charge in [-15, 15] and concrete coordinates; every bond a symbolic bond type (any integer); call histories of length <= 3 on the same objects"),
+        "C12", tier, jobs(tier), bounds=dict(std_bounds(tier, relist=False), extra="every atom carries a unique tag, a symbolic charge in [-15, 15] and concrete coordinates; every bond a symbolic bond type (any integer), except one solver-chosen bond without any attribute and one with an extra attribute; call histories of length <= 3 on the same objects"),
         assumptions=STD_ASSUME + ["bookkeeping keys excluded from 'attributes': partition, explored (scratch flag set by serialize_molecule)"],
         outside=["n > 5 beyond the curated skeletons", "histories longer than 3 calls"],
         explanation="graph_from_molecule -> canonicalize_molecule -> serialize_molecule with deep snapshots before/after each call; obligations: tag->node bijection onto 0..n-1, every attribute term carried, bond types carried by tag pair, input graph unchanged, repeated calls give equal graphs/strings")
